@@ -187,6 +187,10 @@ def gen_scenario(rng, si, kind, root, thorough=False):
         pm = [(p, 55025 if (k == 1 and rng.random() < 0.5) else rng.randint(55026, 65535)) for k, p in enumerate(plates)]
         # an older MJD of the first plate that must be ignored by latest_mjd
         pm.append((plates[0], rng.randint(55025, pm[0][1] - 1) if pm[0][1] > 55025 else 55025))
+        # a plate last observed before MJD 55025: 640 fibres when asked alone, its platelist row when asked together
+        # with a BOSS plate (number_of_fibers then looks EVERY plate up)
+        early = rng.choice([q for q in range(1, 3499)])
+        pm.append((early, 55024 if rng.random() < 0.5 else rng.randint(50000, 55023)))
         pm = list(dict.fromkeys(pm))
     else:
         nplates = 1 if rng.random() < 0.1 else rng.randint(2, 4)
@@ -244,7 +248,8 @@ def gen_scenario(rng, si, kind, root, thorough=False):
             pl.append({'plate': mt['plate'], 'mjd': mt['mjd'], 'run2d': 'other', 'run1d': run1d, 'n_total': mt['nfib'] + 1})
         trees[0]['platelist'] = pl
         trees[0]['platelist_dir'] = trees[0]['top']
-    sc = {'si': si, 'kind': kind, 'run2d': run2d, 'run1d': run1d, 'trees': trees, 'metas': metas, 'calls': []}
+    sc = {'si': si, 'kind': kind, 'run2d': run2d, 'run1d': run1d, 'trees': trees, 'metas': metas, 'calls': [],
+          'platelist': trees[0].get('platelist') or []}
 
     by_plate_latest = {}
     for mt in metas:
@@ -309,11 +314,12 @@ def gen_scenario(rng, si, kind, root, thorough=False):
     if kind == 'allfib-sdss':
         p, m = pm[0]
         reqs = [(p, m, f) for f in range(1, 641)]
-        model = {'plate': aarg([p] * 640), 'mjd': None, 'fiber': aarg(range(1, 641))}
-        add('allfib-sdss-scalar', sarg(p), None, None, reqs, pass_runs='env', feature='allfib-sdss', dtype='i4', model=model)
+        add('allfib-sdss-scalar', sarg(p), None, None, reqs, pass_runs='env', feature='allfib-sdss', dtype='i4')
+        sc['calls'][-1]['allfib'] = True
         return sc
     if kind == 'allfib-boss':
-        plates = sorted(by_plate_latest)
+        boss = sorted(p for p in by_plate_latest if by_plate_latest[p] >= 55025)
+        early = [p for p in by_plate_latest if by_plate_latest[p] < 55025][0]
 
         def expand(ps):
             out = []
@@ -321,11 +327,22 @@ def gen_scenario(rng, si, kind, root, thorough=False):
                 mt = meta_of[(p, by_plate_latest[p])]
                 out += [(p, mt['mjd'], f) for f in range(1, mt['nfib'] + 1)]
             return out
-        for ps, tag in (([plates[1]], 'scalar'), ([plates[1], plates[0]], 'vector'), ([plates[0]], 'scalar-older-mjd-present')):
-            reqs = expand(ps)
-            model = {'plate': aarg([r[0] for r in reqs]), 'mjd': None, 'fiber': aarg([r[2] for r in reqs])}
-            add('allfib-boss-' + tag, sarg(ps[0]) if len(ps) == 1 else aarg(ps), None, None, reqs, pass_runs='env',
-                feature='allfib-boss', dtype='i4', model=model)
+
+        def allcall(tag, ps, mjd=None, reqs='expand', feature='allfib-boss'):
+            rq = expand(ps) if reqs == 'expand' else reqs
+            add('allfib-boss-' + tag, sarg(ps[0]) if (len(ps) == 1 and rng.random() < 0.7) else aarg(ps), mjd, None, rq,
+                pass_runs='env', feature=feature, dtype='i4')
+            sc['calls'][-1]['allfib'] = True
+        allcall('scalar', [boss[1]])
+        allcall('vector', [boss[1], boss[0]])
+        allcall('older-mjd-present', [boss[0]])
+        allcall('mixed-early-and-boss', [boss[0], early])          # the early plate's count comes from the platelist too
+        allcall('scalar-mjd-given', [boss[1]], mjd=sarg(by_plate_latest[boss[1]]))
+        # error conventions of the all-fibre mode (the model says which calls raise)
+        allcall('error-early-alone-640', [early], reqs=None, feature='error')       # 640 fibres assumed, the file is smaller
+        allcall('error-mjd-vector', [boss[1], boss[0]], mjd=aarg([by_plate_latest[boss[1]], by_plate_latest[boss[0]]]),
+                reqs=None, feature='error')
+        allcall('error-repeated-plate', [boss[0], boss[0]], reqs=None, feature='error')
         return sc
 
     # ---- standard scenarios
@@ -551,6 +568,80 @@ def append_term(c, r):
     return '(CAppend %s %s %s %s)' % (zl(c['a']), zl(c['b']), C.zlit(c['shift'] or 0), exp)
 
 
+# ---------------------------------------------------------------- spec_path cases and opened files
+
+def blit(x):
+    return C.coq_list(['%d' % c for c in x.encode('ascii')])
+
+
+def gen_specpath(ctx):
+    rng = ctx.rng
+    cases = []
+    for k in range(ctx.n(160, 1500)):
+        run2d = rng.choice(['26', '103', '007', 'v5_7_0', 'v5_9_0', 'v5_13_2', '2x6', 'x26'])
+        t = rng.random()
+        if t < 0.2:
+            plate = sarg(rng.choice([rng.randint(0, 9), rng.randint(10, 999), rng.randint(1000, 9999), rng.randint(10000, 20000)]))
+        else:
+            plate = aarg([rng.choice([rng.randint(0, 999), rng.randint(1000, 9999), rng.randint(10000, 20000)])
+                          for _ in range(rng.randint(1, 4))])
+        kw, env = {}, {}
+        if rng.random() < 0.25:
+            kw['path'] = 'PATHDIR'
+        if rng.random() < 0.4:
+            kw['topdir'] = 'TOPKW'
+        if rng.random() < 0.6:
+            kw['run2d'] = run2d
+        else:
+            env['RUN2D'] = run2d
+        if rng.random() < 0.7:
+            env['SPECTRO_REDUX'] = 'ENVSDSS'
+        if rng.random() < 0.7:
+            env['BOSS_SPECTRO_REDUX'] = 'ENVBOSS'
+        cases.append({'plate': plate, 'kwargs': kw, 'env': env, 'run2d': run2d, 'dtype': rng.choice(['i4', 'i8'])})
+    return cases
+
+
+def opt_b(x):
+    return 'None' if x is None else '(Some %s)' % blit(x)
+
+
+def specpath_term(c, r):
+    plates = [c['plate']['s']] if 's' in c['plate'] else c['plate']['a']
+    exp = 'None' if 'ok' not in r else '(Some %s)' % C.coq_list([C.coq_list([blit(x) for x in p.split('/')]) for p in r['ok']])
+    return '(CSpecPath %s %s (mkEnv %s %s) %s %s %s)' % (
+        opt_b(c['kwargs'].get('path')), opt_b(c['kwargs'].get('topdir')), opt_b(c['env'].get('SPECTRO_REDUX')),
+        opt_b(c['env'].get('BOSS_SPECTRO_REDUX')), blit(c['run2d']), C.coq_list([C.zlit(p) for p in plates]), exp)
+
+
+def files_term(sc, cm, res):
+    """the spPlate files one successful call opened, relative to the roots named in the call, as path components"""
+    call = cm['call']
+    roots = {}
+    for key, tok in (('path', 'PATHDIR'), ('topdir', 'TOPKW')):
+        if key in call['kwargs']:
+            roots[call['kwargs'][key]] = tok
+    for key, tok in (('SPECTRO_REDUX', 'ENVSDSS'), ('BOSS_SPECTRO_REDUX', 'ENVBOSS')):
+        if key in call['env']:
+            roots.setdefault(call['env'][key], tok)
+    comps = []
+    for f in res.get('opened', []):
+        if not os.path.basename(f).startswith('spPlate-'):
+            continue
+        for root, tok in sorted(roots.items(), key=lambda kv: -len(kv[0])):
+            if f.startswith(root + '/'):
+                comps.append([tok] + f[len(root) + 1:].split('/'))
+                break
+        else:
+            comps.append(['?'] + f.split('/'))
+    tok_of = lambda key, d: roots.get(d.get(key)) if d.get(key) is not None else None   # noqa: E731
+    return '(CFiles %s %s (mkEnv %s %s) %s %s (Some %s))' % (
+        opt_b(tok_of('path', call['kwargs'])), opt_b(tok_of('topdir', call['kwargs'])),
+        opt_b(tok_of('SPECTRO_REDUX', call['env'])), opt_b(tok_of('BOSS_SPECTRO_REDUX', call['env'])),
+        blit(sc['run2d']), C.coq_list(['(%s, %s, %s)' % (C.zlit(p), C.zlit(mj), C.zlit(f)) for p, mj, f in cm['reqs']]),
+        C.coq_list([C.coq_list([blit(x) for x in c]) for c in comps]))
+
+
 # ---------------------------------------------------------------- correspondence
 
 def call_term(cm, res):
@@ -562,6 +653,8 @@ def call_term(cm, res):
         exp = 'None' if 'err' in res else '(Some [])'
     else:
         exp = '(Some %s)' % C.coq_list([zl(a) for a in res['arrays']])
+    if cm.get('allfib'):
+        return '(CReadAll sv pl %s %s %s %s %s %s)' % (C.zlit(cm['r2']), C.zlit(cm['r1']), arg_term(m['plate']), mjd, reqs, exp)
     return '(CRead sv %s %s %s %s %s %s)' % (arg_term(m['plate']), mjd, arg_term(m['fiber']),
                                             C.optlit(cm['znum'], C.zlit), reqs, exp)
 
@@ -597,6 +690,7 @@ def correspond(ctx, proof_ok=True):
         scenarios += subs
         groups.append(grp)
     app_cases = gen_append(ctx)
+    sp_cases = gen_specpath(ctx)
 
     def with_arrays(t):
         tt = dict(t)
@@ -630,18 +724,22 @@ def correspond(ctx, proof_ok=True):
         batches[b].append(jobs[i][0])
     app_chunks = [app_cases[i::2] for i in range(2)]
     payloads = [{'jobs': b} for b in batches] + [{'jobs': [{'kind': 'append', 'cases': ch}]} for ch in app_chunks]
+    payloads[-1]['jobs'].append({'kind': 'specpath', 'cases': sp_cases})
     outs = C.run_impl_parallel('c16_impl.py', payloads)
     ctx.coverage['pydl_file'] = outs[0]['pydl_file']
     results = [[None] * len(sc['calls']) for sc in scenarios]
     for i, b, pos in where:
         for (k, j), r in zip(jobs[i][1], outs[b]['results'][pos]):
             results[k][j] = r
+    sp_results = outs[-1]['results'][1]
     app_results = [None] * len(app_cases)
     for ci, ch in enumerate(app_chunks):
         for k, r in enumerate(outs[nb + ci]['results'][0]):
             app_results[ci + 2 * k] = r
 
     # ---- evaluate model and specification in Coq: one shard per scenario (the survey is defined once per shard)
+    file_verdicts = {}
+
     def eval_scenario(k):
         try:
             return eval_scenario_(k)
@@ -652,17 +750,33 @@ def correspond(ctx, proof_ok=True):
     def eval_scenario_(k):
         sc = scenarios[k]
         files = [file_arrays(m) for m in sc['metas']]
-        header = HEADER + 'Definition sv : survey := %s.\n' % C.coq_list([file_term(fa) for fa in files])
+        codes = {}
+
+        def rc(x):
+            return codes.setdefault(x, len(codes) + 1)
+        pl_rows = ['(mkPl %s %s %d %d %s)' % (C.zlit(r['plate']), C.zlit(r['mjd']), rc('2:' + r['run2d']), rc('1:' + r['run1d']),
+                                              C.zlit(r['n_total'])) for r in sc.get('platelist', [])]
+        for cm in sc['calls']:
+            cm['r2'], cm['r1'] = rc('2:' + sc['run2d']), rc('1:' + sc['run1d'])
+        header = HEADER + 'Definition sv : survey := %s.\nDefinition pl : list plrow := %s.\n' % (
+            C.coq_list([file_term(fa) for fa in files]), C.coq_list(pl_rows))
         cc = C.CoqCases(ctx.work, header, 'run_cases', shard=1000, timeout=300)
         terms = [call_term(cm, res) for cm, res in zip(sc['calls'], results[k])]
-        v = cc.run(terms, tag='scen%03d' % k)
-        return v, cc.coq_seconds, terms
+        # which spPlate files each successful call opened (path model)
+        fidx = [j for j, (cm, res) in enumerate(zip(sc['calls'], results[k]))
+                if cm['reqs'] is not None and 'err' not in res and not res.get('bad')]
+        fterms = [files_term(sc, sc['calls'][j], results[k][j]) for j in fidx]
+        v = cc.run(terms + fterms, tag='scen%03d' % k)
+        file_verdicts[k] = dict(zip(fidx, zip(v[len(terms):], fterms)))
+        return v[:len(terms)], cc.coq_seconds, terms
 
     with ThreadPoolExecutor(max_workers=C.NPROC) as ex:
         evals = list(ex.map(eval_scenario, range(len(scenarios))))
     cc = C.CoqCases(ctx.work, HEADER, 'run_cases', shard=120)
     app_terms = [append_term(c, r) for c, r in zip(app_cases, app_results)]
     app_verdicts = cc.run(app_terms, tag='append')
+    sp_terms = [specpath_term(c, r) for c, r in zip(sp_cases, sp_results)]
+    sp_verdicts = cc.run(sp_terms, tag='specpath')
     ctx.coverage['coq_eval_s'] = round(cc.coq_seconds + max(e[1] for e in evals), 1)
 
     # ---- decide
@@ -733,6 +847,33 @@ def correspond(ctx, proof_ok=True):
             else:
                 rep['item'] = 'C16.Model.readspec_model'
                 ctx.violation(sig, 'model and implementation disagree on %s: %s %s' % (cm['tag'], outcome, '; '.join(problems)), rep, False)
+    # ---- paths: spec_path() directories and the files the calls opened (model tie, no separate specification)
+    n_files = 0
+    for k, fv in file_verdicts.items():
+        for j, (v, term) in fv.items():
+            n_files += 1
+            if v == 0:
+                continue
+            model_dis += 1
+            sc, cm = scenarios[k], scenarios[k]['calls'][j]
+            sig = 'C16:files:%s:%s:model' % ('topdir' if sc['kind'] == 'topdir' else 'std', cm['feature'])
+            if sig in seen:
+                continue
+            seen.add(sig)
+            ctx.violation(sig, 'the spPlate files opened by readspec are not the ones the path model names (%s, %s)' % (cm['tag'], sc['kind']),
+                          {'kind': 'broken-correspondence', 'item': 'C16.Model.opened_spplate', 'call': cm['call'], 'requests': cm['reqs'],
+                           'opened': results[k][j].get('opened'), 'coq_case': term[:3000]}, False)
+    for c, r, v, term in zip(sp_cases, sp_results, sp_verdicts, sp_terms):
+        if v == 0:
+            continue
+        model_dis += 1
+        sig = 'C16:spec_path:%s:%s:model' % ('path' if 'path' in c['kwargs'] else ('topdir' if 'topdir' in c['kwargs'] else 'env'),
+                                             ('impl=' + r['err']) if 'err' in r else 'diff')
+        if sig in seen:
+            continue
+        seen.add(sig)
+        ctx.violation(sig, 'spec_path() differs from the path model', {'kind': 'broken-correspondence', 'item': 'C16.Model.spec_path_model',
+                                                                      'case': c, 'impl_result': r, 'coq_case': term}, False)
     app_bad = 0
     for c, r, v, term in zip(app_cases, app_results, app_verdicts, app_terms):
         extra = []
@@ -762,8 +903,9 @@ def correspond(ctx, proof_ok=True):
             ctx.violation(sig, 'spec_append: %s' % (', '.join(extra) or 'model and implementation disagree'), rep, False)
 
     ctx.coverage.update({
-        'evaluations': n_calls + len(app_cases),
-        'distinct_nontrivial': len(set(t for e in evals for t in e[2])) + len(set(app_terms)),
+        'evaluations': n_calls + len(app_cases) + len(sp_cases),
+        'spec_path_calls': len(sp_cases), 'opened_file_lists_compared': n_files,
+        'distinct_nontrivial': len(set(t for e in evals for t in e[2])) + len(set(app_terms)) + len(set(sp_terms)),
         'rule': 'one evaluation = one readspec call on a freshly written synthetic tree (every returned image, loglam and table '
                 'column compared exactly, inside Coq, with the algorithmic model readspec_model and with the request-by-request '
                 'specification readspec_S) or one spec_append call (compared with spec_append and spec_append_S); '
